@@ -4,7 +4,7 @@ library contracts)."""
 import z3
 from .core import (Unsupported, CV, zint, zbool, zreal, simp, is_int_ctype, is_float_ctype,
                    int_range, norm_ctype, wrap_int)
-from .heap import Module, Native, Class, SymArr, SliceObj, PList, Obj, EnumVal
+from .heap import Module, Native, Class, SymArr, SliceObj, PList, Obj, EnumVal, Opaque
 
 DTYPES = {"int8", "uint8", "int16", "uint16", "int32", "uint32", "int64", "uint64",
           "float32", "float64", "bool_"}
@@ -240,6 +240,16 @@ def make_module(I):
             t = z3.Store(t, i, zint(I_.unC(x)))
         arr.arr = t
         return arr
+    def _iinfo(I_, a, k):
+        dt = a[0]
+        name = dt.name if isinstance(dt, DType) else None
+        if name is None or not is_int_ctype(name):
+            raise Unsupported("np.iinfo of a non-integer dtype")
+        lo, hi = int_range(name)
+        o = Opaque("iinfo")
+        o.attrs = {"min": lo, "max": hi}
+        return o
+    ns["iinfo"] = Native("np.iinfo", _iinfo)
     ns["array"] = Native("np.array", _array)
     ns["asarray"] = Native("np.asarray", _asarray)
 
